@@ -22,7 +22,7 @@ META = {
     "technique": "Coq proof (loop invariant through the six steps of the pipeline: used columns + props_left is a permutation of the source columns, mapping keys distinct, no leftover column spelled like an assigned key) + differential correspondence of the extracted model with the implementation under recorded difflib answers",
     "level_text": "Theorems C17_partition / C17_partition_edge / C17_exact / C17_exact_edge hold for every list of distinct columns, every required list, every feature dict and every answer of the fuzzy matcher that is one of its candidates (no bound on sizes); the hand-written model is tied to /repo by running the extracted model and the implementation on the same generated column lists (same difflib answers) and comparing the resulting maps as ordered (key, value) lists.",
     "level_note": "Trusted: Coq kernel, extraction (ExtrOcamlBasic), OCaml driver, Python harness. Modelled not verified: str.lower and difflib.get_close_matches (oracle arguments of the model; the theorem only assumes that an answer is one of the candidates), Python dict/list semantics (Base/Dict.v).",
-    "design_ref": "DESIGN.md (C17)",
+    "design_ref": "DESIGN.md section 9 (C17), line 531 of the technique table",
     "assumptions": ["source column names are pairwise distinct (NoDup cols)",
                     "difflib.get_close_matches returns one of the candidates it was given (closest_sound)"],
     "trusted": ["difflib.get_close_matches / str.lower: answers recorded from the implementation run and fed to the model as oracle tables (order of candidates included)"],
@@ -260,6 +260,18 @@ def gen_columns(rng, kind, required, feats):
                                                                                     "Overlap", "weight", "score", "source", "target"] + base[:4]
     n = rng.choice([0, 1, 2, 3, 3, 4, 4, 5, 5, 6, 6, 7, 7, 8, 9, 10])
     cols = []
+    # a quarter of the lists start with several value names of one multi-value feature (shuffled,
+    # some in another case) so that multi-column values with 2+ entries and index sorting are hit
+    multis = [feat_fields(f)[2] for f in feats.values() if feat_fields(f)[1] > 1 and len(feat_fields(f)[2]) > 1]
+    if multis and n >= 2 and rng.random() < 0.25:
+        vn = [v for v in rng.choice(multis) if isinstance(v, str)]
+        rng.shuffle(vn)
+        for v in vn[:rng.randint(2, 3)]:
+            c = v if rng.random() < 0.7 else rng.choice([v.upper(), v.title(), v + "_1"])
+            if c not in cols and len(cols) < n:
+                cols.append(c)
+        if rng.random() < 0.5:
+            rng.shuffle(cols)
     guard = 0
     while len(cols) < n and guard < 200:
         guard += 1
@@ -339,6 +351,9 @@ def step_stats(kind, cols, required, feats, mapping, rec, stats):
                     stats["lists_with_already_assigned_skip"] = stats.get("lists_with_already_assigned_skip", 0) + 1
             except Exception:  # noqa: BLE001
                 pass
+    for c in rec.calls:
+        key = "difflib_args_n=%s_cutoff=%s" % c[4]
+        stats[key] = stats.get(key, 0) + 1
     if rec.calls:
         stats["lists_with_difflib_calls"] = stats.get("lists_with_difflib_calls", 0) + 1
         stats["difflib_calls"] = stats.get("difflib_calls", 0) + len(rec.calls)
@@ -366,7 +381,7 @@ def evaluate(kind, cols, required, feats):
 
 def run(ctx):
     rng = ctx.rng
-    n = 2200 if ctx.quick() else 40000
+    n = 2500 if ctx.quick() else 40000
     cases = []
     # the two former loss cases first (finding F-17a), then generated lists
     f3 = real_features(4)
@@ -416,7 +431,7 @@ def run(ctx):
                             "difflib_calls": [(c[0], c[1], c[2]) for c in rec.calls][:6], "impl_output": io, "model_output": mitems})
     stats["n_columns"] = {str(k): v for k, v in sorted(stats["n_columns"].items())}
     return {"evaluations": len(cases), "distinct_nontrivial": len(distinct),
-            "rule": "0-10 distinct column names drawn from: standard keys, feature keys, display names and value names of the real 2D/3D feature dicts "
+            "rule": "0-10 distinct column names (a quarter of the lists start with 2-3 shuffled value names of one multi-value feature) drawn from: standard keys, feature keys, display names and value names of the real 2D/3D feature dicts "
                     "(RegionpropsAnnotator/EdgeAnnotator/TrackAnnotator via get_default_key_to_feature_mapping), case variants, near-duplicates "
                     "(_1/_2 suffixes, prefixes, typos, dropped characters), names similar to a column already drawn, common tracking column names, random strings; "
                     "required sets: CSV [time,id,parent_id], GEFF [time], and unusual ones (empty, seg_id twice, time twice, with pos/area); 25-30% of the feature dicts "
